@@ -26,19 +26,14 @@ Theorem C11_tables_total : forall c,
 Proof. exact tables_total. Qed.
 Print Assumptions C11_tables_total.
 
-(* the decimal literals the reader finds in Curve::prime() are the EXECUTED
-   primes, and the executed prime_size() is the bit length of the executed prime.
-   (Third audit: the former obligation C11_sources_recognised also re-read, inside
-   Coq, the booleans the Python source reader writes into Gen.CurveTables
-   .source_shape; that is a check of the reader's output, not a statement about
-   the code - it is now the lemma Proofs.CurvesProofs.reader_matched_every_item,
-   no obligation, and the run reports an unmatched item as a broken
-   correspondence by itself.) *)
-Theorem C11_prime_literals_are_executed_primes :
-  (forall c, assoc (variant_name c) source_prime_literals = Some (prime c)) /\
-  (forall c, prime_size c = bit_size (prime c)).
-Proof. exact prime_literals_are_executed_primes. Qed.
-Print Assumptions C11_prime_literals_are_executed_primes.
+(* Third / fourth audit: the former obligations C11_sources_recognised and
+   C11_prime_literals_are_executed_primes compared outputs of the Python source
+   reader (booleans; decimal literals) with each other and with executed values -
+   checks of the reader, not statements about the code.  They are the lemmas
+   Proofs.CurvesProofs.reader_matched_every_item and
+   .prime_literals_are_executed_primes now, no obligations; an unmatched item or
+   a literal that is not the executed prime stops the build of the proofs and is
+   reported as a broken correspondence by the run. *)
 
 (* for every curve and EVERY name: the code's membership test answers exactly
    what the documentation table (with Circomlib's spelling) marks *)
@@ -165,6 +160,17 @@ Print Assumptions C11_nothing_else_accepted.
 Theorem C11_non_ascii_rejected : forall s, ascii_only s = false -> parse_curve s = Rejected.
 Proof. exact non_ascii_rejected. Qed.
 Print Assumptions C11_non_ascii_rejected.
+
+(* the two normalisers the model knows answer alike on every ASCII string: the
+   repair db291d0 (`to_uppercase` -> `to_ascii_uppercase`) changed the answer for
+   no ASCII spelling.  parse_curve_unicode is the model of the previous
+   normaliser (UTF-8 decoding, executed upper-casing table); it is compared with
+   the EXECUTED str::to_uppercase on every spelling of every run.  The hypothesis
+   is evaluated on every spelling of the sweep (coverage.to_uppercase_model_compared). *)
+Theorem C11_normalisers_agree_on_ascii : forall s, ascii_only s = true ->
+  parse_curve_unicode s = parse_curve s.
+Proof. exact normalisers_agree_on_ascii. Qed.
+Print Assumptions C11_normalisers_agree_on_ascii.
 
 (* the accept/reject table obtained by executing Curve::from_str on every case
    variant of the three names, on the ASCII near misses and on the non-ASCII
